@@ -208,6 +208,9 @@ def oracle(ctx, o, first_only=False):
                     todo.append((n, dict(base, ident=iv)))
         if n == "fshp":
             todo += [(n, dict(base, variant=v)) for v in (0, 1, 2, 3) if v != base.get("variant")]
+        if n == "sun_md5_crypt":
+            # both layouts of the settings field — with and without an explicit cost — in every run
+            todo += [(n, dict(base, rounds=r_)) for r_ in (0, 7) if r_ != base.get("rounds")]
     # formats whose string grows with the password or is made of several independently computed parts: a password long enough to fill more
     # than one part (so that a string cut at a part boundary is among the mutants)
     LONG = b"password and a long tail 0123456789"
@@ -226,6 +229,8 @@ def oracle(ctx, o, first_only=False):
         slow = name in fc.EXPENSIVE or name in ("sun_md5_crypt", "scrypt")
         muts = structural_mutants(hs, rng, ctx.thorough)
         always = [hs + "x", hs + hs, hs + "$", hs + "\n", hs + " ", " " + hs, hs[:-1], hs[:-1] + ("A" if hs[-1:] != "A" else "B"), hs.swapcase()]
+        # a doubled separator collapsed, every single separator doubled (formats where the number of "$" is itself a setting: sun_md5_crypt)
+        always += [hs.replace("$$", "$", 1)] + [hs[:i] + "$" + hs[i:] for i, c in enumerate(hs) if c == "$"]
         # cut at every multiple of 11 / 16 / 32 characters counted from the end and from the start (block-structured checksums), and halves
         always += [hs[:-k] for k in (11, 16, 22, 32, 33, 40) if k < len(hs)] + [hs[:k] for k in (13, 16, 24, 32, 35) if k < len(hs)] + [hs[: len(hs) // 2]]
         # a longer salt / settings field: extra characters inserted before each separator and before the checksum
